@@ -2,7 +2,7 @@
    Tp/*.v and followed by Print Assumptions.
    The model is the transcription of the tree WITH repo_patches/C08-remove-segment-boundaries.diff
    (tp_fixed = true); tp_fixed = false is the pinned tree and is used only by C08_remove_refuted. *)
-From Icv Require Import Base.Tac Tp.TpModel Tp.TpProofs Tp.TpObs Tp.TpOracleProofs Tp.TpCal Tp.TpCivil Tp.TpCalObs Tp.TpCalProofs Tp.TpDst Tp.TpTab Tp.TpNth Tp.TpNorm Tp.TpParse Tp.TpParseProofs.
+From Icv Require Import Base.Tac Tp.TpModel Tp.TpProofs Tp.TpObs Tp.TpOracleProofs Tp.TpCal Tp.TpCivil Tp.TpCalObs Tp.TpCalProofs Tp.TpDst Tp.TpTab Tp.TpNth Tp.TpNorm Tp.TpParse Tp.TpParseProofs Tp.TpRoll Tp.TpRollProofs.
 Local Open Scope Z_scope.
 
 (* ---------------- M1: interval algebra, all segment lists, all instants ---------------- *)
@@ -64,6 +64,138 @@ Theorem C08_oracle_accepts_model : forall probes ops,
   tp_oracle probes (tp_model_trace probes tp_empty ops) = None.
 Proof. exact tp_oracle_accepts_model. Qed.
 Print Assumptions C08_oracle_accepts_model.
+
+(* ---------------- rolling updates: Start() and the 5-minute timer, over any length of time ----------------
+   A period is started (UpdateRegion(now, now + 24 h, true)) and then goes through ANY sequence of timer rounds
+   (PurgeSegments(now - 3600); UpdateRegion(valid_end, now + 24 h, false)), each round seeing the referenced periods'
+   segment arrays as they are at that moment - computed earlier in the same round, or not yet (tp_rround).
+   Hypotheses (Tp/TpRoll.v, Section Rolling):
+     ownP            the period's own definition as a set of instants; the update function never reports an instant
+                     outside it, answers completely from the region's begin up to hz e >= e, and returns no segment
+                     ending after hz e (for the calendar function: hz e = the end of the last local day the day loop
+                     visits, or the end of a range of such a day running past it);
+     tp_round_ok     no segment of a referenced period begins after hz (now + 24 h);
+     tp_round_mono   the clock does not go back, and from one hour before a round on the referenced periods' inside
+                     sets only grow from one round to the next (true for periods without includes/excludes of their own).
+   Then at every instant from one hour before the last round (not before the start) up to valid_end, IsInside is
+       prefer_includes ? (own /\ ~E) \/ I : (own \/ I) /\ ~E
+   with I, E read from the referenced periods as they were at the period's last round that was not UpdateRegion's
+   early return (snd of tp_roll; C08_rolling_view: that is the current round whenever valid_end <= now + 24 h). *)
+Theorem C08_rolling_updates : forall (ownP : Z -> bool) upd hz prefer,
+  (forall b e t, tp_inside_segs (upd b e) t = true -> ownP t = true) ->
+  (forall b e t, b <= e -> b <= t < hz e -> tp_inside_segs (upd b e) t = ownP t) ->
+  (forall e, e <= hz e) ->
+  (forall b e sg, In sg (upd b e) -> snd sg <= hz e) ->
+  forall r0 rs,
+  tp_round_ok hz r0 -> tp_env_ok hz r0 rs ->
+  let s := fst (tp_roll upd prefer r0 rs) in
+  let rl := snd (tp_roll upd prefer r0 rs) in
+  forall t, Z.max (tp_rr_now r0) (tp_rr_now (last rs r0) - 3600) <= t < tp_ve_num s ->
+    tp_is_inside s t =
+    tp_region_spec prefer (ownP t) (tp_inside_any (tp_rr_incs rl) t) (tp_inside_any (tp_rr_excs rl) t).
+Proof. exact tp_rolling_updates. Qed.
+Print Assumptions C08_rolling_updates.
+
+Theorem C08_rolling_view : forall upd prefer r0 rs r,
+  tp_roll_effective r (fst (tp_roll upd prefer r0 rs)) = true ->
+  snd (tp_roll upd prefer r0 (rs ++ [r])) = r.
+Proof. exact tp_rolling_view. Qed.
+Print Assumptions C08_rolling_view.
+
+(* the oracle check of a timer round (run over the implementation's IsInside bits at the probes) accepts the model ... *)
+Theorem C08_rolling_oracle_accepts_model : forall (ownP : Z -> bool) upd hz prefer,
+  (forall b e t, tp_inside_segs (upd b e) t = true -> ownP t = true) ->
+  (forall b e t, b <= e -> b <= t < hz e -> tp_inside_segs (upd b e) t = ownP t) ->
+  (forall e, e <= hz e) ->
+  (forall b e sg, In sg (upd b e) -> snd sg <= hz e) ->
+  forall r0 rs probes,
+  tp_round_ok hz r0 -> tp_env_ok hz r0 rs ->
+  let s := fst (tp_roll upd prefer r0 rs) in
+  let rl := snd (tp_roll upd prefer r0 rs) in
+  tp_roll_answers_ok prefer (Z.max (tp_rr_now r0) (tp_rr_now (last rs r0) - 3600)) (tp_ve_num s)
+    (map (fun t => (t, (tp_is_inside s t, ownP t),
+                    (tp_inside_any (tp_rr_incs rl) t, tp_inside_any (tp_rr_excs rl) t))) probes) = None.
+Proof. exact tp_roll_oracle_accepts_model. Qed.
+Print Assumptions C08_rolling_oracle_accepts_model.
+
+(* ... and rejects any observation with a wrong answer at a probe of [lo, valid_end) *)
+Theorem C08_rolling_oracle_rejects_wrong_answer : forall prefer lo ve answers t o own i x,
+  In (t, (o, own), (i, x)) answers -> lo <= t < ve -> o <> tp_region_spec prefer own i x ->
+  tp_roll_answers_ok prefer lo ve answers <> None.
+Proof. exact tp_roll_answers_rejects_wrong. Qed.
+Print Assumptions C08_rolling_oracle_rejects_wrong_answer.
+
+(* what C08_rolling_updates cannot say because the code does not do it - both reproduced on the real objects through
+   the real UpdateTimerHandler (known findings reference-started-later, include-of-excluding-period):
+   (1) the referenced periods are read as they were at the last round that recomputed, NOT as they are now: a period whose
+       own segments reach past now + 24 h returns early from UpdateRegion round after round and merges nothing, so an
+       excluded period that was started after it is ignored although all hypotheses hold *)
+Theorem C08_rolling_current_view_refuted :
+  let upd := fun b e : Z => [(b, e + 50000)] in
+  let hz := fun e : Z => e + 50000 in
+  let ownP := fun _ : Z => true in
+  let x := [(1000, 2000)] in
+  let r0 : tp_rround := (0, [], [[]]) in
+  let rs : list tp_rround := [(300, [], [x]); (600, [], [x]); (900, [], [x])] in
+  (forall b e t, tp_inside_segs (upd b e) t = true -> ownP t = true) /\
+  (forall b e t, b <= e -> b <= t < hz e -> tp_inside_segs (upd b e) t = ownP t) /\
+  (forall e, e <= hz e) /\
+  (forall b e sg, In sg (upd b e) -> snd sg <= hz e) /\
+  tp_round_ok hz r0 /\ tp_env_ok hz r0 rs /\
+  snd (tp_roll upd true r0 rs) = r0 /\
+  tp_is_inside (fst (tp_roll upd true r0 rs)) 1500 = true /\
+  tp_region_spec true (ownP 1500) (tp_inside_any [] 1500) (tp_inside_any [x] 1500) = false.
+Proof. exact tp_rolling_current_view_refuted. Qed.
+Print Assumptions C08_rolling_current_view_refuted.
+
+(* (2) tp_round_mono cannot be dropped: what an included period wrongly reported for one round (it excludes a third period
+       that is updated after it) stays in the including period for good *)
+Theorem C08_rolling_needs_monotone_refuted :
+  let upd := fun _ _ : Z => @nil tp_seg in
+  let hz := fun e : Z => e in
+  let r0 : tp_rround := (0, [[(0, 86400)]], []) in
+  let r1 : tp_rround := (4000, [[(0, 90400)]], []) in
+  let r2 : tp_rround := (4300, [[(0, 90000); (90400, 90700)]], []) in
+  tp_round_ok hz r0 /\ tp_round_ok hz r1 /\ tp_round_ok hz r2 /\
+  snd (tp_roll upd true r0 [r1; r2]) = r2 /\
+  tp_ve_num (fst (tp_roll upd true r0 [r1; r2])) = 90700 /\
+  tp_is_inside (fst (tp_roll upd true r0 [r1; r2])) 90200 = true /\
+  tp_region_spec true false (tp_inside_any (tp_rr_incs r2) 90200) (tp_inside_any (tp_rr_excs r2) 90200) = false.
+Proof. exact tp_rolling_needs_monotone_refuted. Qed.
+Print Assumptions C08_rolling_needs_monotone_refuted.
+
+(* not vacuous: "always" (own = everything, the update function returns the region itself) excluding a period that is
+   updated AFTER it in every round: the excluded stretch of the second day, which the excluded period computes only
+   after "always" has computed that region, is outside once the next round has run *)
+Example C08_nonvacuous_rolling :
+  let upd := fun b e : Z => [(b, e)] in
+  let x1 := [(1000, 2000)] in
+  let x2 := [(1000, 2000); (86400 + 400, 86400 + 450)] in
+  let r0 : tp_rround := (0, [], [x1]) in
+  let rs : list tp_rround := [(300, [], [x1]); (600, [], [x2]); (900, [], [x2])] in
+  tp_round_ok (fun e => e) r0 /\ tp_env_ok (fun e => e) r0 rs /\
+  tp_ve_num (fst (tp_roll upd true r0 rs)) = 86400 + 900 /\
+  tp_is_inside (fst (tp_roll upd true r0 rs)) 1500 = false /\
+  tp_is_inside (fst (tp_roll upd true r0 rs)) (86400 + 420) = false /\
+  tp_is_inside (fst (tp_roll upd true r0 rs)) (86400 + 500) = true /\
+  tp_is_inside (fst (tp_roll upd true r0 [(300, [], [x1]); (600, [], [x1])])) (86400 + 420) = true.
+Proof.
+  cbv zeta.
+  assert (forall a b t, tp_inside_any (tp_rr_excs a) t = true ->
+          (forall sg, In sg (concat (tp_rr_excs a)) -> In sg (concat (tp_rr_excs b))) ->
+          tp_inside_any (tp_rr_excs b) t = true) as Hsub.
+  { intros a b t H Hs. rewrite tp_inside_any_concat in *. unfold tp_inside_segs in *. apply existsb_exists in H.
+    destruct H as (sg & Hin & H). apply existsb_exists. exists sg. split; [apply Hs, Hin|exact H]. }
+  assert (forall (r : tp_rround), (forall sg, In sg (concat (tp_rr_excs r)) -> fst sg <= tp_rr_now r + 86400) ->
+          tp_rr_incs r = [] -> tp_round_ok (fun e => e) r) as Hok.
+  { intros r H Hi sg Hin. rewrite Hi in Hin. exact (H sg Hin). }
+  split; [|split].
+  - apply Hok; [|reflexivity]. intros sg Hin. cbn in Hin. destruct Hin as [<-|[]]. cbn. lia.
+  - cbn [tp_env_ok]. repeat split; try (cbn; lia); try (intros Hq; exact Hq);
+      try (apply Hok; [|reflexivity]; intros sg Hin; cbn in Hin; intuition (subst; cbn; lia));
+      try (intros Hq; apply (Hsub _ _ _ Hq); intros sg Hin; cbn in *; tauto).
+  - vm_compute. repeat split; reflexivity.
+Qed.
 
 (* ---------------- M2: calendar ----------------
    The model follows the source in two places, read from the regenerated facts Facts/Facts_c08.v:
@@ -135,17 +267,48 @@ Print Assumptions C08_spec_meaning.
 
 (* the calendar oracle run over implementation traces accepts what the model computes for a zone without
    transitions, in either form, outside what is left of F-C08-b (no range of a day before the loop's first day reaches
-   a probe) *)
-Theorem C08_calendar_oracle_accepts_model_partial : forall c rnd lb ranges prefer incs excs b e clear probes pre,
+   a probe), whenever the probes of the case cover what the written ranges ask for (allr = the ranges of every period of the case) *)
+Theorem C08_calendar_oracle_accepts_model_partial : forall c rnd lb allr ranges prefer incs excs b e clear probes pre,
   tp_ranges_bounded ranges ->
   let off := fun _ : Z => c in
   let mk := fun l : Z => l - c in
   let post := tp_update_region true (tp_script_func off mk rnd lb ranges) prefer incs excs b e clear pre in
+  tp_probes_cover probes (tp_spec_bounds c [] allr (tp_upd_begin b clear pre) e) = true ->
   (forall t d, In t probes -> tp_upd_begin b clear pre <= t < e ->
                d < tp_first_day off lb (tp_upd_begin b clear pre) -> tp_day_covers off mk false ranges d t = false) ->
-  tp_cal_step_ok c [] ranges prefer incs excs b e clear probes pre post (map (tp_is_inside post) probes) = None.
+  tp_cal_step_ok c [] allr ranges prefer incs excs b e clear probes pre post (map (tp_is_inside post) probes) = None.
 Proof. exact tp_cal_step_ok_model_const. Qed.
 Print Assumptions C08_calendar_oracle_accepts_model_partial.
+
+(* the oracle decides on the implementation's IsInside answers: for ANY observation (segments, window, answers - nothing
+   is assumed about where they come from) of an UpdateRegion call that is not the early return, an answer at a probe of
+   the computed window [b', e) that differs from the statement
+       prefer_includes ? (own /\ ~E) \/ I : (own \/ I) /\ ~E,   own = wall-clock statement over the WRITTEN ranges
+   makes the oracle report the step (any time zone table) *)
+Theorem C08_oracle_rejects_wrong_answer : forall base tab allr ranges prefer incs excs b e clear probes pre post ins t o,
+  (negb clear && (e <? tp_ve_num pre)) = false ->
+  In (t, o) (combine probes ins) ->
+  tp_upd_begin b clear pre <= t < e ->
+  o <> tp_region_spec prefer (tp_spec_inside (tp_tab_off base tab) (tp_tab_mk base tab) false None tp_back ranges t)
+                      (tp_inside_any incs t) (tp_inside_any excs t) ->
+  tp_cal_step_ok base tab allr ranges prefer incs excs b e clear probes pre post ins <> None.
+Proof. exact tp_cal_step_rejects_wrong_answer. Qed.
+Print Assumptions C08_oracle_rejects_wrong_answer.
+
+(* ... at instants chosen from the specification: it reports the step (class "probes") unless the probes contain both
+   boundaries of every written time range of every period of the case on every day that can reach the window, the two
+   neighbours of each, and an instant in the middle half of every gap between consecutive boundaries *)
+Theorem C08_oracle_needs_spec_probes : forall base tab allr ranges prefer incs excs b e clear probes pre post ins,
+  (negb clear && (e <? tp_ve_num pre)) = false ->
+  tp_probes_cover probes (tp_spec_bounds base tab allr (tp_upd_begin b clear pre) e) = false ->
+  tp_cal_step_ok base tab allr ranges prefer incs excs b e clear probes pre post ins <> None.
+Proof. exact tp_cal_step_needs_spec_probes. Qed.
+Print Assumptions C08_oracle_needs_spec_probes.
+
+Theorem C08_probes_cover_meaning : forall probes bounds u,
+  tp_probes_cover probes bounds = true -> In u bounds -> In (u - 1) probes /\ In u probes /\ In (u + 1) probes.
+Proof. exact tp_probes_cover_bounds. Qed.
+Print Assumptions C08_probes_cover_meaning.
 
 (* ---------------- M2 across DST transitions (23 h / 25 h days) ----------------
    off : UTC offset in force at a UTC instant, with the hypotheses of DESIGN section 2 C08: |off| < 24 h, two
